@@ -165,3 +165,16 @@ package mysql
 
 // A packet's 4-byte header buffer is allocated by its constructor and never replaced.
 //@ structural mysql-packet-header-immutable props C05 C12 C14 : field-readonly Packet.header allow NewPacket
+
+// ---- MySQL packets from the database: column definitions and prepare responses (C14, C12) ----
+//@ func ParsePrepareStatementResponse(data []byte) (r *PrepareStatementResponse, err error)
+//@   props C12 C14
+//@   safety
+//@   ensures (err == nil) <==> (r != nil)
+//@   ensures layout: err == nil ==> r.StatementID == le32(data[1:5]) && r.ColumnsNum == le16(data[5:7]) && r.ParamsNum == le16(data[7:9]) && r.Reserved == data[9] && r.WarningNum == le16(data[10:12])
+//@   modifies nothing
+
+//@ func ParseResultField(packet *Packet, mariaDBExtendedTypeInfo bool) (field *ColumnDescription, err error)
+//@   props C12 C14
+//@   safety
+//@   ensures (err == nil) <==> (field != nil)
